@@ -5,6 +5,7 @@ CONSTANTS
     L = 2
     Design = "temp"
     Policy = "trust"
+    RenameAt = "closed"
     MaxCrash = 2
     Fifo = TRUE
     EmitOn = FALSE
